@@ -151,7 +151,7 @@ macro_rules | `(tactic| invl_step $hi $h $f) => `(tactic|
 theorem invL_step {c : Cfg} {s s' : State} {t : Nat} {l : Label} (hi : InvL s) (h : step c s t l = some s') :
     InvL s' := by
   cases l <;> simp only [step] at h
-  case call op => invl_step hi h stepCall
+  case call op a => invl_step hi h stepCall
   case advance d => simp at h; subst h; exact ⟨hi.held, hi.owner⟩
   case read => invl_step hi h stepRead
   case insMap => invl_step hi h stepInsMap
@@ -236,7 +236,7 @@ macro_rules | `(tactic| invm_step $hi $h $f) => `(tactic|
 theorem invM_step {c : Cfg} {s s' : State} {t : Nat} {l : Label} (hi : InvM s) (h : step c s t l = some s') :
     InvM s' := by
   cases l <;> simp only [step] at h
-  case call op => invm_step hi h stepCall
+  case call op a => invm_step hi h stepCall
   case advance d => simp at h; subst h; exact ⟨hi.lt, hi.nodup⟩
   case read => invm_step hi h stepRead
   case insMap => invm_step hi h stepInsMap
